@@ -12,6 +12,11 @@ impl Binder {
             return Err(ErrorKind::CanNotInsert.with_spanned(&insert.table_name));
         }
         let cols = self.bind_table_columns(&insert.table_name, &insert.columns)?;
+        // A table without columns (`create table t`) cannot take rows: a RowSet counts its rows
+        // by its first column, and one without columns made every later statement panic.
+        if self.node(cols).as_list().is_empty() {
+            return Err(ErrorKind::CanNotInsert.with_spanned(&insert.table_name));
+        }
         let source = self.bind_query(*source)?.0;
         let id = self.egraph.add(Node::Insert([table, cols, source]));
         Ok(id)
